@@ -168,8 +168,16 @@ impl<K> Policy<K> {
             return;
         }
 
-        let victim =
-            self.lru.peek_least_recent(lru::Region::Probation).unwrap();
+        let Some(victim) = self.lru.peek_least_recent(lru::Region::Probation)
+        else {
+            // The probation region can be empty, e.g. after its entries have
+            // been removed explicitly. There is no victim to duel with, and
+            // the main region has spare room (the protected region never
+            // exceeds its own capacity, which is smaller than the main
+            // capacity), so the key is simply re-admitted.
+            self.lru.move_key_to_head_of_region(unpin, lru::Region::Probation);
+            return;
+        };
 
         let (pinned_frequency, victim_frequency) = {
             let pinned_hash = build_hash.hash_one(unpin);
